@@ -123,16 +123,17 @@ Section Progress.
   Proof.
     induction ch as [|x ch IH]; intros c t H; cbn [take_in_chunk] in H; [discriminate|].
     destruct x; try (inversion H; subst; cbn [length]; lia).
-    apply IH in H. cbn [length]. lia.
+    destruct (take_in_chunk ch) as [[c0 t']|] eqn:E; [|discriminate].
+    inversion H; subst. pose proof (IH _ _ eq_refl). cbn [length]. lia.
   Qed.
-  Lemma take_first_size rest : forall c i, take_first rest = Some (c, i) ->
-    S (stream_size i) <= fold_left (fun a ch => a + length ch) rest 0.
+  Lemma take_first_size rest : forall pending c i, take_first pending rest = Some (c, i) ->
+    S (stream_size i) <= length pending + fold_left (fun a ch => a + length ch) rest 0.
   Proof.
-    induction rest as [|ch rest IH]; intros c i H; cbn [take_first] in H; [discriminate|].
+    induction rest as [|ch rest IH]; intros pending c i H; cbn [take_first] in H; [discriminate|].
     cbn [fold_left]. rewrite (fold_len_shift rest (0 + length ch)).
     destruct (take_in_chunk ch) as [[c0 t]|] eqn:E.
-    - inversion H; subst. apply take_in_chunk_size in E. unfold stream_size. cbn [in_cur in_rest]. lia.
-    - apply IH in H. lia.
+    - inversion H; subst. apply take_in_chunk_size in E. unfold stream_size. cbn [in_cur in_rest]. rewrite app_length. lia.
+    - apply IH in H. rewrite app_length in H. lia.
   Qed.
   Lemma take_char_size cur rest c i : take_char cur rest = Some (c, i) -> S (stream_size i) <= stream_size (mkIn cur rest).
   Proof.
